@@ -50,6 +50,7 @@ type pipeCase struct {
 	Segs  []bool `json:"segs"`
 	Pad   string `json:"pad"`
 	PadAt string `json:"padAt"`
+	Sep   string `json:"sep"`
 	Res   struct {
 		Verdict  string `json:"verdict"`
 		Stage    string `json:"stage"`
@@ -165,6 +166,30 @@ func main() {
 				continue
 			}
 			text = "SELECT " + strings.Repeat("a,\n", 1000001) + "a FROM t"
+		case pc.Sep == "none":
+			// well-formed statements one after the other without a semicolon: the second one starting with every
+			// keyword a statement can start with.  Only agreement is judged (some pairs read as ONE statement, e.g.
+			// INSERT INTO t followed by SELECT; then every entry point must read them so)
+			reps := map[string]string{}
+			var order []string
+			for _, g := range good {
+				w := strings.ToUpper(strings.Fields(g.SQL)[0])
+				if _, ok := reps[w]; !ok {
+					reps[w] = g.SQL
+					order = append(order, w)
+				}
+			}
+			for _, w := range order {
+				for k := 0; k < 2; k++ {
+					parts := []string{}
+					for i := 0; i < len(pc.Segs)-1; i++ {
+						parts = append(parts, good[rng.Intn(len(good))].SQL)
+					}
+					parts = append(parts, reps[w])
+					agree(strings.Join(parts, []string{" ", "\n"}[k]), "", "", json.RawMessage(c))
+				}
+			}
+			continue
 		default:
 			var parts []string
 			for _, g := range pc.Segs {
